@@ -42,6 +42,12 @@ def Kind.isDelta : Kind → Bool
   | .positionDelta | .posvelDelta => true
   | _ => false
 
+/-- kinds with registered attributes (`_position._ATTRIBUTES`: `other` for `PositionArray` and
+`PosVelArray`); only their `subset`/`insert` loop over them -/
+def Kind.hasOther : Kind → Bool
+  | .position | .posvel => true
+  | _ => false
+
 /-- the kind of the `ref_pos` a delta kind carries -/
 def Kind.refKind : Kind → Kind
   | .posvelDelta => .posvel
@@ -175,10 +181,10 @@ def subsetObj (idx : Index) : Nat → Nat → St → M (Nat × St)
         match pick idx obj.rows with
         | .error e => .error e
         | .ok rows =>
-          match viaMemo (subsetObj idx fuel) obj.other s with
+          match (if obj.kind.hasOther then viaMemo (subsetObj idx fuel) obj.other s else .ok (none, s)) with
           | .error e => .error e
           | .ok (oth, s1) =>
-            match viaMemo (subsetObj idx fuel) obj.refPos s1 with
+            match (if obj.kind.isDelta then viaMemo (subsetObj idx fuel) obj.refPos s1 else .ok (none, s1)) with
             | .error e => .error e
             | .ok (rp, s2) =>
               let (o', s3) := s2.alloc { obj with rows := rows, other := oth, refPos := rp }
@@ -190,6 +196,8 @@ def subsetPlain (idx : Index) (o : Nat) (s : St) : M (Nat × St) :=
   match s.heap[o]? with
   | none => .error .dangling
   | some obj =>
+    -- (model guard: the field kind is the kind of its array, as `add` established)
+    if !(obj.kind.isPlain || obj.kind == .sigma) then .error .unsupported else
     match pick idx obj.rows with
     | .error e => .error e
     | .ok rows =>
@@ -209,9 +217,12 @@ def insertObj : Nat → Nat → Nat → Nat → St → M (Nat × St)
     | none =>
     match s.heap[a]?, s.heap[b]? with
     | some oa, some ob =>
+      -- (model guard: both arrays are of the same class, as the field types guarantee)
+      if oa.kind != ob.kind then .error .unsupported else
       let rows := insertAt oa.rows pos ob.rows
-      -- registered attribute `other`
+      -- registered attribute `other` (only `PositionArray.insert` has the loop)
       let othR : M (Option Nat × St) :=
+        if !oa.kind.hasOther then .ok (none, s) else
         match oa.other, ob.other with
         | none, none => .ok (none, s)
         | ao, bo =>
@@ -250,8 +261,9 @@ def insertObj : Nat → Nat → Nat → Nat → St → M (Nat × St)
       | .ok (oth, s1) =>
         -- `ref_pos` of the delta kinds
         let rpR : M (Option Nat × St) :=
+          if !oa.kind.isDelta then .ok (none, s1) else
           match oa.refPos with
-          | none => .ok (none, s1)
+          | none => .error .attribute
           | some ra =>
             match s1.find ra with
             | some r => .ok (some r, s1)
@@ -275,6 +287,7 @@ def insertPlain (a pos : Nat) (brows : List Row) (s : St) : M (Nat × St) :=
   match s.heap[a]? with
   | none => .error .dangling
   | some oa =>
+    if !oa.kind.isPlain then .error .unsupported else   -- (model guard, see `subsetPlain`)
     let (n, s1) := s.alloc { oa with rows := insertAt oa.rows pos brows }
     .ok (n, s1.set a n)
 
@@ -411,6 +424,7 @@ def padField (front : Bool) (n : Nat) : Field → St → M (Field × St)
       match s.heap[o]? with
       | none => .error .dangling
       | some ob =>
+        if ob.kind != k then .error .unsupported else   -- (model guard)
         let r : M (Nat × St) :=
           if k.isPlain then insertPlain o pos (List.replicate n (emptyRow k ob.cols)) s
           else if k.isDelta then
@@ -452,6 +466,7 @@ def extendLeaf (us : Units) (nm : String) (k : Kind) (o no : Nat) (u : Option (L
     if k != k2 then .error .value else
     match s.heap[o]?, s.heap[o2]? with
     | some oa, some ob =>
+      if oa.kind != k || ob.kind != k then .error .unsupported else   -- (model guard)
       let r : M (Nat × St) :=
         if k.isDelta then insertObj (s.heap.length + 1) o no o2 s
         else if oa.ndim != ob.ndim then .error .value
